@@ -769,7 +769,7 @@ Definition p_recipe (fuel : nat) (s : st) : res (list astmt) :=
   | Fuel => Fuel
   end.
 
-Definition fuel_for (x : str) : nat := S (S (S (S (List.length x)))).
+Definition fuel_for (x : str) : nat := S (S (S (S (List.length x + List.length x)))).
 
 Definition parse_with (fuel : nat) (x : str) : poutcome :=
   match p_recipe fuel (mkSt x 0 None) with
